@@ -62,8 +62,8 @@ def run(ctx, chk):
                 chk.ob('C01.W1', 'record.void_after<-as_of', va[0] == 'agg' and arith.mentions(va, T('field', f[0], 'tv_sec')), where,
                        'void_after <- %s' % fmt(va)[-80:])
                 st = fmt(f[5])
-                from_step = any(s_ is not None and any(x == s_ for x in psi.walk(f[5])) for s_ in i['steps'])
-                chk.ob('C01.W1', 'record.status<-fsm', (from_step and st.startswith('value#')) or st.endswith('Unknown()'), where,
+                kind, st_, from_step = um.published(chk, i, ceb)
+                chk.ob('C01.W1', 'record.status<-fsm', (kind == 'fsm' and from_step) or (kind, st_) == ('const', 'Unknown'), where,
                        'status <- %s' % st[:80])
         chk.floor('C01.W1', 'publishing paths', sum(1 for i in um.infos if i['records']), 5)
     if pm.ok:
